@@ -144,7 +144,7 @@ func c09space(c *engine.Ctx, forms []*T, label string) (zy.Res, hwm) {
 	})
 	tr.Run(layout(c09prelude(), 0))
 	tr.Trace = nil
-	res := tr.Run(layout(forms, 0))
+	res := tr.Run(srcOf(forms))
 	return res, h
 }
 
@@ -153,7 +153,7 @@ func c09one(c *engine.Ctx, chainName string, chain *T, k c09kind, thorough bool)
 	// (1) transparency against R1
 	for _, n := range []int{0, 1, 2, 3, 10} {
 		forms := c09program(chain, k, n)
-		res := diffProgram(c, "C09", c09prelude(), forms, 0, progOpts{keyExtra: key, r1Depth: 2000, r1Fuel: 2000000})
+		res := diffProgram(c, "C09", c09prelude(), forms, 0, progOpts{keyExtra: key, r1Depth: 2000, r1Fuel: 2000000, sugar: true})
 		if res.tr != nil {
 			// at rest afterwards
 			d := res.tr.Env.VerifDepths()
@@ -224,6 +224,9 @@ func c09nonTailCtx() []gen.Ctx {
 		tmpl("nt-def-local", 1, `(begin (def lv $1) (list lv n))`),
 		tmpl("nt-assert", 1, `(begin (assert (not (== 5 $1))) (t 6 n))`),
 		tmpl("nt-hash-value", 1, `(hash k: $1)`),
+		tmpl("nt-template-unquote", 1, `(syntaxQuote (x (unquote $1)))`),
+		tmpl("nt-template-array", 1, `(syntaxQuote [(unquote $1) y])`),
+		tmpl("nt-template-splice", 1, `(syntaxQuote (x (unquote-splicing (list $1))))`),
 		tmpl("nt-for-body", 1, `(begin (def res 0) (for [(def i 0) (< i 1) (set i (+ i 1))] (set res $1)) res)`),
 	}
 }
@@ -319,7 +322,7 @@ func init() {
 			// a witness is the program text; classify it again through both oracles
 			_, forms := parseWitness(w)
 			key := "replay"
-			res := diffProgram(c, "C09", c09prelude(), forms, 0, progOpts{keyExtra: key, r1Depth: 2000, r1Fuel: 2000000})
+			res := diffProgram(c, "C09", c09prelude(), forms, 0, progOpts{keyExtra: key, r1Depth: 2000, r1Fuel: 2000000, sugar: true})
 			if res.tr != nil {
 				d := res.tr.Env.VerifDepths()
 				if res.impl.OK() && (d.Data != 0 || d.Scope != 1 || d.Addr != 0) {
